@@ -81,9 +81,16 @@ func c10DefaultCarried(ctx *Ctx, r *Report) map[*types.Func]bool {
 						}
 					}
 				}
+				// `t, err := visitor.VisitType(schema, fresh)`
+				if as, ok := n.(*ast.AssignStmt); ok && as.Tok == token.DEFINE && len(as.Lhs) == 2 && len(as.Rhs) == 1 {
+					if id, ok := as.Lhs[0].(*ast.Ident); ok {
+						defs[info.Defs[id]] = as.Rhs[0]
+					}
+				}
 				return true
 			})
-			isFreshType := func(e ast.Expr) bool {
+			var isFreshType func(e ast.Expr) bool
+			isFreshType = func(e ast.Expr) bool {
 				c, ok := ast.Unparen(e).(*ast.CallExpr)
 				if !ok {
 					return false
@@ -91,6 +98,14 @@ func c10DefaultCarried(ctx *Ctx, r *Report) map[*types.Func]bool {
 				fn := callee(info, c)
 				if fn == nil || fn.Pkg() == nil {
 					return false
+				}
+				// what the visitor makes of a fresh type is as fresh as that type
+				if strings.HasPrefix(fn.Name(), "Visit") && fn.Pkg().Path() == modulePath+"/internal/ast/compiler" {
+					for _, a := range c.Args {
+						if namedOf(info.TypeOf(a)) == typeT && isFreshType(a) {
+							return true
+						}
+					}
 				}
 				if fn.Pkg().Path() == astPkgPath && fn.Type().(*types.Signature).Recv() == nil && namedOf(fn.Type().(*types.Signature).Results().At(0).Type()) == typeT {
 					return true // ast.NewRef, ast.NewScalar, ast.Any, ast.String, ...
